@@ -215,6 +215,9 @@ pub fn run(a: &Args) {
         }
         r.note("thorough: every pair of index fields through all 512x512 values, the remaining two in {0,511}");
     }
+    if a.shard == 0 {
+        guarded(&mut r, "C04|const-context|unexpected-panic", || "constctx".into(), |r| crate::constctx::addrs(r, "C04"));
+    }
     r.sample("addr 0xffff800000000000".into());
     r.sample("addr 0x181c0e09abc (indices 3,7,7,9)".into());
     r.note("exhaustive: all 65536 u16 for index/offset constructors; each of the 5 fields through all its values with the other four in {0,1,255,256,511}^4; full 512^4 product not enumerated");
